@@ -697,10 +697,14 @@ class Interp:
             f = -f
             c = -c
         iv = st.iv.get(key)
-        if iv is None:
+        if iv is not None:
+            r = decide_scaled(iv, op, f, -c)
+            if r is not None:
+                return r
+        lo, hi = self.bounds(st, from_lin(dict(key), 0))
+        if lo == -INF and hi == INF:
             return None
-        # key*f + c op 0 ; with integer key
-        return decide_scaled(iv, op, f, -c)
+        return decide_scaled(Interval(lo, hi), op, f, -c)
 
     def assume_cmp(self, st, op, a, b, truth, oty=None):
         """record the fact (a op b) == truth; returns False if infeasible"""
@@ -732,33 +736,7 @@ class Interp:
         return True
 
     # ------------------------------------------------------------ ranges
-    def bounds(self, st, v, depth=0):
-        """(lo, hi) of a numeric value under the path facts (interval arithmetic over its affine form)"""
-        if isinstance(v, bool):
-            return int(v), int(v)
-        if isinstance(v, int):
-            return v, v
-        if depth > 8 or not isinstance(v, tuple) or v == TOP:
-            return -INF, INF
-        if v[0] == "lin":
-            key, f = canon(dict(v[1]))
-            iv = st.iv.get(key)
-            lo = hi = None
-            if iv is not None and f != 0:
-                a, b = iv.lo * f, iv.hi * f
-                lo, hi = (min(a, b) + v[2], max(a, b) + v[2])
-            slo = shi = v[2]
-            for a, k in v[1]:
-                l, h = self.bounds(st, a, depth + 1)
-                if k >= 0:
-                    slo += k * l
-                    shi += k * h
-                else:
-                    slo += k * h
-                    shi += k * l
-            if lo is None:
-                return slo, shi
-            return max(lo, slo), min(hi, shi)
+    def _atom_bounds(self, st, v, depth):
         lo, hi = -INF, INF
         if v[0] in ("trunc", "cast") and v[1] in INT_BITS and not v[1].startswith("i"):
             lo, hi = 0, (1 << INT_BITS[v[1]]) - 1
@@ -770,11 +748,13 @@ class Interp:
             if isinstance(w, int):
                 lo, hi = 0, (1 << (8 * w)) - 1
         elif v[0] in ("len", "len0"):
-            lo = 0
-        elif v[0] == "min":
+            lo, hi = 0, (1 << 63) - 1
+        elif v[0] == "call" and len(v) >= 4 and v[1].split("::")[-1] in ("len", "remaining", "capacity"):
+            lo, hi = 0, (1 << 63) - 1
+        elif v[0] == "min" and len(v) == 3:
             a, b = self.bounds(st, v[1], depth + 1), self.bounds(st, v[2], depth + 1)
             lo, hi = min(a[0], b[0]), min(a[1], b[1])
-        elif v[0] == "max":
+        elif v[0] == "max" and len(v) == 3:
             a, b = self.bounds(st, v[1], depth + 1), self.bounds(st, v[2], depth + 1)
             lo, hi = max(a[0], b[0]), max(a[1], b[1])
         key, f = canon({v: 1})
@@ -782,6 +762,50 @@ class Interp:
         if iv is not None:
             lo, hi = max(lo, iv.lo), min(hi, iv.hi)
         return lo, hi
+
+    def bounds(self, st, v, depth=0):
+        """(lo, hi) of a numeric value under the path facts: interval arithmetic over its affine form,
+        refined by one elimination step against each known fact on an affine form (v = K + R)"""
+        if isinstance(v, bool):
+            return int(v), int(v)
+        if isinstance(v, int):
+            return v, v
+        if depth > 6 or not isinstance(v, tuple) or not v or v == TOP:
+            return -INF, INF
+        if v[0] == "lin":
+            mine, const = dict(v[1]), v[2]
+        else:
+            mine, const = {v: 1}, 0
+        slo = shi = const
+        for a, k in mine.items():
+            l, h = self._atom_bounds(st, a, depth)
+            if k >= 0:
+                slo += k * l
+                shi += k * h
+            else:
+                slo += k * h
+                shi += k * l
+        if len(mine) > 1:
+            key, f = canon(mine)
+            iv = st.iv.get(key)
+            if iv is not None and f != 0:
+                a, b = iv.lo * f, iv.hi * f
+                slo, shi = max(slo, min(a, b) + const), min(shi, max(a, b) + const)
+        if depth < 2:
+            for key2, iv2 in list(st.iv.items()):
+                if len(key2) < 2 or (iv2.lo == -INF and iv2.hi == INF):
+                    continue
+                for sign in (1, -1):
+                    rest = dict(mine)
+                    for a2, k2 in key2:
+                        rest[a2] = rest.get(a2, 0) - sign * k2
+                    rest = {a2: k2 for a2, k2 in rest.items() if k2 != 0}
+                    if len(rest) > len(mine) + 1:
+                        continue
+                    rl, rh = self.bounds(st, from_lin(rest, const), depth + 1)
+                    kl, kh = (iv2.lo, iv2.hi) if sign == 1 else (-iv2.hi, -iv2.lo)
+                    slo, shi = max(slo, kl + rl), min(shi, kh + rh)
+        return slo, shi
 
     def check_overflow(self, st, base, a, b, oty):
         """'safe' | 'panics' | 'unknown' for an overflow-checked a (base) b of type oty"""
@@ -914,6 +938,7 @@ class Interp:
             if a == TOP:
                 return TOP
             if bits and obits and bits >= obits:
+                self.type_range(st, a, oty)
                 return a  # widening (same signedness assumed for the code base's unsigned ints)
             if oty == "bool":
                 return a
@@ -1070,6 +1095,7 @@ class Interp:
             exp = 1 if t.j["expected"] else 0
             kind = t.msg.get("kind", "?")
             if isinstance(c, int):
+                st.events.append(Event("obligation", "assert:" + kind, [kind, t.msg.get("op"), None, None, None], site0, t.span, tuple(self.ctx), extra={"status": "safe" if c == exp else "panics", "body": body.path}))
                 if c != exp:
                     st.events.append(Event("panic", "assert:" + kind, [], site0, t.span, tuple(self.ctx)))
                     st.cut = "panic: assert %s" % kind
@@ -1266,11 +1292,22 @@ class Interp:
                         nxt = []
                         for s_, r_ in results:
                             got = self.invoke(s_, a if isinstance(a, Ref) else cv, cargs, depth, site, label="callback:" + ev_name)
+                            fnmut = cb.locals[1]["ty"].startswith("&mut ") if len(cb.locals) > 1 else False
                             for s2, cret in got:
                                 if s2.cut and s2.cut.startswith("loop"):
                                     s2.cut = None
                                 s2.events.append(Event("callback-return", ev_name, [cret], site, t.span, tuple(self.ctx), extra={"closure": cv.path}))
-                                nxt.append((s2, r_))
+                                if fnmut and cv.caps:
+                                    # the callee may call an FnMut closure any number of times: second visit with
+                                    # its by-value captured state unknown
+                                    hv = ClosureV(cv.path, [c_ if isinstance(c_, Ref) else ("captured", cv.path.split("::")[-2], i_) for i_, c_ in enumerate(cv.caps)], cv.kind)
+                                    again = self.invoke(s2, hv, cargs, depth, site, label="callback-again:" + ev_name)
+                                    for s3, _c3 in again:
+                                        if s3.cut and s3.cut.startswith("loop"):
+                                            s3.cut = None
+                                        nxt.append((s3, r_))
+                                else:
+                                    nxt.append((s2, r_))
                         results = nxt or results
         out = []
         for s2, ret in results:
@@ -1584,10 +1621,19 @@ def m_size_of(I, st, t, args, site, depth):
     ta = t.callee.targs
     if ta and ta[0] in SIZE_OF:
         return [(st, SIZE_OF[ta[0]])]
+    if ta and ta[0] in I.facts.adts:
+        a = I.facts.adts[ta[0]]
+        if a["kind"] == "Struct" and len(a["variants"]) == 1:
+            sizes = [SIZE_OF.get(f_["ty"]) for f_ in a["variants"][0]["fields"]]
+            if sizes and all(x is not None for x in sizes):
+                al = max(sizes)
+                tot = sum(sizes)
+                return [(st, (tot + al - 1) // al * al)]
     return None
 
 
 def m_panic(I, st, t, args, site, depth):
+    st.events.append(Event("obligation", "explicit-panic", ["panic", None, None, None, None], site, t.span, tuple(I.ctx), extra={"status": "panics", "body": site[0]}))
     st.events.append(Event("panic", strip_generics(t.callee.path), args, site, t.span, tuple(I.ctx)))
     return [(st, DIVERGE)]
 
@@ -1639,11 +1685,29 @@ def m_from_u8(I, st, t, args, site, depth):
 
 def m_unwrap(I, st, t, args, site, depth):
     v = args[0]
+    nm = t.callee.name
     if isinstance(v, Struct) and v.variant in ("Ok", "Some"):
+        st.events.append(Event("obligation", "precondition:" + nm, [nm, None, v, None, None], site, t.span, tuple(I.ctx), extra={"status": "safe", "body": site[0]}))
         return [(st, v.get("0"))]
     if isinstance(v, Struct) and v.variant in ("Err", "None"):
-        st.events.append(Event("panic", "unwrap", args, site, t.span, tuple(I.ctx)))
+        st.events.append(Event("obligation", "precondition:" + nm, [nm, None, v, None, None], site, t.span, tuple(I.ctx), extra={"status": "panics", "body": site[0]}))
+        st.events.append(Event("panic", nm, args, site, t.span, tuple(I.ctx)))
         return [(st, DIVERGE)]
+    st.events.append(Event("obligation", "precondition:" + nm, [nm, None, v, None, None], site, t.span, tuple(I.ctx), extra={"status": "unknown", "body": site[0]}))
+    if isinstance(v, tuple) and v != TOP:
+        good = "Some" if "ption" in (t.callee.path or "") else "Ok"
+        return [(st, ("field", ("as", tform(v), good), "0"))]
+    return [(st, TOP)]
+
+
+def m_gen_range(I, st, t, args, site, depth):
+    rng = args[1] if len(args) > 1 else None
+    status = "unknown"
+    if isinstance(rng, Struct):
+        lo, hi = rng.get("start"), rng.get("end")
+        d = I.decide_cmp(st, "Lt", lo, hi, "usize")
+        status = "safe" if d is True else ("panics" if d is False else "unknown")
+    st.events.append(Event("obligation", "precondition:gen_range", ["gen_range", None, rng, None, None], site, t.span, tuple(I.ctx), extra={"status": status, "body": site[0]}))
     return None
 
 
@@ -1718,6 +1782,11 @@ DEFAULT_MODELS = {
     "std::cmp::max": m_min,
     "std::cmp::Ord::min": m_min,
     "std::cmp::Ord::max": m_min,
+    "std::option::Option::unwrap": m_unwrap,
+    "std::option::Option::expect": m_unwrap,
+    "std::result::Result::unwrap": m_unwrap,
+    "std::result::Result::expect": m_unwrap,
+    "rand::Rng::gen_range": m_gen_range,
     "core::panicking::panic": m_panic,
     "core::panicking::panic_fmt": m_panic,
     "std::rt::begin_panic": m_panic,
